@@ -5,7 +5,7 @@
    non-matching CAS: C02_delta_cas_mismatch. *)
 From MC Require Import Model.Base Model.Generated Model.Store Model.Memc Model.Codec Model.Handler
   Spec.Exec Proofs.Decimal Proofs.StoreLemmas Proofs.SetLemmas Proofs.MemcLemmas Proofs.Effects
-  Proofs.PC06 Proofs.PC01 Proofs.PC02 Proofs.PC07.
+  Proofs.PC06 Proofs.PC01 Proofs.PC02 Proofs.PC07 Proofs.PGuards Model.RustInt.
 
 Theorem C07_delta_result_spec : forall incr n d,
   delta_result incr n d = if incr then (n + d) mod two64 else N.max (n - d) 0.
@@ -66,3 +66,17 @@ Example C07_nonvacuous :
   parse_u64 [x2b; x35] = Some 5 /\ parse_u64 [x2d; x35] = None /\ parse_u64 [] = None /\
   parse_u64 [x20; x37] = None /\ to_dec 0 = [x30].
 Proof. repeat split. Qed.
+
+(* the counter arithmetic of the source (the if-chain in MemcStore::add_delta, translated
+   on every run with u64 semantics: wrapping_add wraps, `-` panics below zero) never
+   panics and is the model's; so is the test that decides whether an absent counter is
+   created *)
+Theorem C07_delta_is_source : src_delta_ok = true ->
+  forall incr v d, src_delta incr v d = Some (delta_result incr v d).
+Proof. exact delta_is_source. Qed.
+Print Assumptions C07_delta_is_source.
+
+Theorem C07_delta_creates_is_source : src_delta_creates_ok = true ->
+  forall e, src_delta_creates e = Some (negb (e =? u32_max)).
+Proof. exact delta_creates_is_source. Qed.
+Print Assumptions C07_delta_creates_is_source.
